@@ -1,5 +1,5 @@
 /-
-  Termination of weakly fair schedules of the repaired Future/ThreadPool model — what is proved, what is open.
+  Termination of weakly fair schedules of the repaired Future/ThreadPool model — what is proved here (the reduction); the measure itself is in Fair2*.lean.
 
   PROVED (FairRed.lean, FairFix.lean, FairLock.lean, FairCore.lean; every reachable state, every configuration):
 
@@ -36,33 +36,14 @@
   Files: FairRed (generic reduction), FairFix (fixpoint steps), FairLock (spin-lock holder), FairCore (concrete
   reduction), FairDist (frame distance + staleness), FairBudget (spurious budget), FairLex (budget interface).
 
-  OPEN: see the block at the end of the file.
+  OPEN: nothing (see the block at the end of the file: closed in round 2 by Fair2*.lean).
 -/
 import Nstd.Future.FairLex
 
 /-
-OPEN:
-  The measure itself, i.e. for `cfg.repaired = true`, `cfg.WellFormed`:
-
-    theorem progresses_wf (hrep : cfg.repaired = true) (hwf : cfg.WellFormed) : WellFounded (Progresses cfg)
-
-  (equivalently a `μ` with `hdec` of `fair_runs_terminate_of_step_decreases`), from which
-
-    theorem fair_runs_terminate (hrep : cfg.repaired = true) (hwf : cfg.WellFormed) (hf : FairRun cfg σ run) :
-        ∃ n, ∀ t, enabled (run n) t = false
-    theorem join_eventually (hrep : cfg.repaired = true) (hwf : cfg.WellFormed) (hf : FairRun cfg σ run) :
-        ∃ n, (∀ t th, (run n).threads t = some th → th.finished = true) ∧
-          (∀ c, c < (run n).nextCall →
-            (run n).completed c = true ∧ (run n).execCount c = 1 ∧ (run n).freeCount c = 1)
-
-  follow by `fair_runs_terminate_of_wf` / `join_eventually_of_wf` (one line each).
-  By `progresses_wf_of_budget` (FairLex.lean) it suffices to give a budget `B : State → Nat` with `hle`, `hlt`.
-  Intended shape of `μ` (lexicographic): remaining client-script ops and main-thread phases; pushes still to come;
-  pops still to come; wake credits (FastSignal states set + `signaled` flags + woken-not-yet-rechecked threads +
-  `s.spurious`); Σ ticket staleness (`tail − t` at `pushChk/pushCas`, `head − h` at `popChk/popCas`);
-  Σ per-thread frame distance.  The last two components are DONE (FairDist.lean: `frameDist`); what is missing is
-  a bound on the back edges `FR.isBack` (`sWaitRelock`, `runChk2`, `dChk2`, `dSet`, `wChk2`, `wAdd`, `cleanAt`,
-  `cleanJoin`, `dJoin`) and on the winning CASes, i.e. components "remaining pushes/pops" and "wake credits" together
-  with the invariants that make them decrease (every further iteration of a wait loop needs a new set event or a
-  spurious wake-up; set events come from successful pushes/pops and from the re-signal of `fRstLoad`).
+OPEN: nothing.  (State after round 2: the measure asked for here was constructed in Fair2*.lean — lexicographic (`lev1`, `F2.lev2`,
+  `F2.lev3`, Σ `frameDist`), see the overview in Fair2.lean — and `progresses_wf`, `fair_runs_terminate`, `join_eventually` are
+  proved outright in Fair2Main.lean (`cfg.repaired = true`; `join_eventually` also `cfg.WellFormed`) and restated in Props.lean.
+  The budget interface `progresses_wf_of_budget` of FairLex.lean stayed unused: the final proof goes through
+  `progresses_wf_of_lev1` (Fair2Final.lean), whose level 1 counts the remaining work events instead of bounding the back edges.)
 -/
